@@ -154,7 +154,7 @@ let check_dupsort_order acc ~family (o : opts) (out : (string * string) list) ca
   end
 
 let rfamily st : (string * string) list list =
-  let nsrc = (match rint st 8 with 0 -> 0 | 1 -> 1 | _ -> rrange st 2 6) in
+  let nsrc = (match rint st 8 with 0 -> 0 | 1 -> 1 | 2 -> rrange st 7 12 | _ -> rrange st 2 6) in
   let keyspace = Array.init (rrange st 3 14) (fun i -> if i = 0 && rint st 3 = 0 then "" else Printf.sprintf "%c%02d" (Char.chr (97 + rint st 3)) (i * 3 + rint st 2)) in
   let keyspace = Array.of_list (List.sort_uniq compare (Array.to_list keyspace)) in
   List.init nsrc (fun si ->
@@ -188,11 +188,35 @@ let run ~tier ~seed ~only acc =
     ([ [ ("k", "a") ]; [ ("k", "ab") ]; [ ("k", "abc") ]; [ ("", "x"); ("k", "b") ] ], { merge = false; fail_at = 0; dupsort = 2 }, Rd.Iter, nexts 6);
     ([ [ ("k", "a") ]; [ ("k", "ab") ]; [ ("k", "abc") ] ], { merge = true; fail_at = 2; dupsort = 0 }, Rd.Iter, nexts 3);
     ([ [ ("k", "a") ]; [ ("k", "ab") ]; [ ("k", "abc") ] ], { merge = true; fail_at = 1; dupsort = 0 }, Rd.Iter, nexts 3);
+    (* seven sources whose first keys arrive in an order that exercises siftup at even and odd slots *)
+    (List.map (fun k -> [ (k, "v" ^ k) ]) [ "a0"; "a1"; "a4"; "a2"; "a5"; "a6"; "a3" ], { merge = true; fail_at = 0; dupsort = 0 }, Rd.Iter, nexts 8);
+    (List.map (fun k -> [ (k, "v" ^ k) ]) [ "a0"; "a1"; "a4"; "a2"; "a5"; "a6"; "a3" ], { merge = false; fail_at = 0; dupsort = 0 }, Rd.Iter, nexts 8);
+    (List.map (fun k -> [ (k, "v" ^ k); ("z" ^ k, "w" ^ k) ]) [ "a0"; "a1"; "a4"; "a2"; "a5"; "a6"; "a3" ], { merge = true; fail_at = 0; dupsort = 0 }, Rd.Iter, nexts 15);
+    (List.map (fun k -> [ ("", "e" ^ k); (k, "v" ^ k); ("m", "m" ^ k); ("z" ^ k, "w" ^ k) ]) [ "a0"; "a1"; "a4"; "a2"; "a5"; "a6"; "a3" ], { merge = true; fail_at = 0; dupsort = 0 }, Rd.Iter, nexts 20);
   ] in
   List.iter (fun (family, o, k, ops) ->
     List.iter (fun use_readers ->
       if want () then in_child_case (fun a -> run_case a ~family ~use_readers o k ops) (JO [ "directed", JL (List.map entries_json family) ]);
       incr idx) [ false; true ]) dir;
+  (* many sources whose first keys arrive in a random order: the shape of the heap built by the constructor *)
+  let nperm = if tier = "thorough" then 600 else 60 in
+  for _ = 1 to nperm do
+    if want () then begin
+      let st = case_rng ~seed ~engine ~index:!idx in
+      let k = rrange st 7 10 in
+      let a = Array.init k (fun i -> i) in
+      for i = k - 1 downto 1 do let j = rint st (i + 1) in let t = a.(i) in a.(i) <- a.(j); a.(j) <- t done;
+      let shared_first = rbool st and shared_mid = rbool st in
+      let family = List.init k (fun si ->
+        (if shared_first then [ ("", Printf.sprintf "e%d" si) ] else [])
+        @ [ (Printf.sprintf "a%d" a.(si), Printf.sprintf "s%d" si) ]
+        @ (if shared_mid then [ ("m", Printf.sprintf "m%d" si) ] else [])
+        @ [ (Printf.sprintf "z%d" (rint st 3), Printf.sprintf "t%d" si) ]) in
+      let o = { merge = rbool st; fail_at = 0; dupsort = 0 } in
+      in_child_case (fun acc' -> run_case acc' ~family ~use_readers:(rbool st) o Rd.Iter (nexts (4 * k + 2))) (JO [ "sources", JL (List.map entries_json family) ])
+    end;
+    incr idx
+  done;
   let n = if tier = "thorough" then 5000 else 300 in
   for _ = 1 to n do
     if want () then begin
